@@ -130,6 +130,44 @@ def make_churn(ctx, count):
     return scns
 
 
+def make_strangers(ctx, count):
+    """a busy segment: while one mapper's session is open, Discovers arrive from many distinct other stations (N around 8, 16,
+    32, 64 and beyond - what a table of 'stations heard' might hold), some of them again and again; none is answered, the
+    mapper's own Discovers in between all are"""
+    scns = []
+    for i in range(count):
+        rng = G.rng_for(ctx.seed, "C05crowd", i)
+        cfg = G.rand_cfg(rng, mtu=rng.choice([576, 1500, 9000]))
+        net = G.Net(rng, cfg["mac"], nmappers=3, nstrangers=3)
+        m = rng.randrange(3)
+        n = rng.choice([7, 8, 9, 15, 16, 17, 31, 32, 33, 64, 65, 100, 130, 257])
+        others = G.distinct_macs(rng, n, avoid=[cfg["mac"]] + net.mappers)
+        frames = [G.f_discover(rng, net, m=m, tos=0)]
+        for k, st in enumerate(others):
+            frames.append(W.discover(st, rng.getrandbits(16), rng.getrandbits(16), [], tos=rng.choice([0, 0, 1]),
+                                     eth_src=st if rng.random() < 0.8 else G.rand_mac(rng)))
+            r = rng.random()
+            if r < 0.15:
+                frames.append(G.f_discover(rng, net, m=m, tos=rng.choice([0, 0, 1])))
+            elif r < 0.3 and k:
+                back = others[rng.randrange(k)]
+                frames.append(W.discover(back, rng.getrandbits(16), rng.getrandbits(16), [], tos=0))
+            elif r < 0.35:
+                frames.append(G.f_query(rng, net, m))
+        frames.append(G.f_discover(rng, net, m=m, tos=0))
+        frames.append(W.discover(others[0], 1, 2, [], tos=0))
+        if rng.random() < 0.5:
+            frames.append(G.f_reset(rng, net, m=m, tos=0))
+            frames.append(W.discover(others[-1], 1, 2, [], tos=0))          # released: the next Discover, whoever sends it, is accepted
+            frames.append(G.f_discover(rng, net, m=m, tos=0))
+        s = H.Scenario("cr%d" % i, meta=dict(frames=frames, own=cfg["mac"], mtu=cfg["mtu"], rxseed=cfg["rxseed"], strangers=n))
+        s.iface(0, **H.iface_kw(cfg)).glob(**G.global_kw(G.rand_global(rng, icon_size=0)))
+        s.add("OPT sleep=0")
+        s.frames(0, frames)
+        scns.append(s)
+    return scns
+
+
 def make_multi(ctx, count):
     """three to six interfaces served by one core, each with its own mapper session, first heard in any order (the registry of
     per-interface records is built up in that order), their histories interleaved frame by frame: every interface keeps
@@ -256,6 +294,10 @@ def monitor(scn, sobj, rep, sf, ck):
                           "last frames:\n  %s" % (scn.sid, idx + 1, before, active_before.hex() if active_before else None,
                                                   fr[24:30].hex(), tos, exp, got, "\n  ".join(recent)),
                           replay=sobj.text())
+    if sobj.meta.get("strangers") and judged:
+        rep.count("histories_with_many_distinct_strangers")
+        if sobj.meta["strangers"] >= 16:
+            rep.count("histories_with_16_or_more_distinct_strangers")
     if sobj.meta.get("churn") and judged:
         rep.count("churn_histories")
         if 1024 in sobj.meta["churn"]["levels"]:
@@ -282,6 +324,7 @@ def run(ctx):
     scns = make_scenarios(ctx, ctx.n(1500, 30000), 60)
     run_monitored(ctx, binary, scns, monitor, tag="hist")
     run_monitored(ctx, binary, make_multi(ctx, ctx.n(200, 4000)), monitor_multi, tag="multi")
+    run_monitored(ctx, binary, make_strangers(ctx, ctx.n(120, 2000)), monitor, tag="crowd")
     plain = H.build(ctx.work, "plain")
     churn = make_churn(ctx, ctx.n(24, 400))
     run_monitored(ctx, binary, churn, monitor, tag="churn")
@@ -297,6 +340,7 @@ def run(ctx):
     for cls in ("idle/hello", "active-same/hello", "active-other/silence", "opened-by-command/hello"):
         rep.need("class:" + cls, rep.counters.get("discover_judged:" + cls, 0), 50)
     rep.need("churn_histories_reaching_the_observation_bound", rep.counters.get("churn_histories_reaching_the_observation_bound", 0), 10)
+    rep.need("histories_with_16_or_more_distinct_strangers", rep.counters.get("histories_with_16_or_more_distinct_strangers", 0), 40)
     rep.need("discovers_judged_beside_other_interfaces", rep.counters.get("discovers_judged_beside_other_interfaces", 0), 1000)
     rep.need("foreign_service_frames", rep.counters.get("foreign_service_frames", 0), 1000)
     rep.need("opened-by-command-bridged", rep.counters.get("discover_judged:opened-by-command-bridged", 0), 20)
